@@ -20,9 +20,11 @@ Two further case kinds watch the wrappers themselves:
     explicit commits, several threads, a commit fired from another thread exactly as the flush timer would, a real
     timer); after every step its own reader()/searcher() must show exactly the model's documents; after close() a
     freshly opened index must show all of them and the write lock must be free.
-  * "async": an AsyncWriter is created while another writer holds the lock (and does its own transaction), with
-    explicit sequencing of hold -> buffer -> commit() -> release -> join and randomized sleeps; the observed orders
-    (number of failed retries, release before/after commit()) are counted.
+  * "async": inside product cases an AsyncWriter is created while another writer holds the lock (and does its own
+    transaction), with explicit sequencing of hold -> buffer -> commit() -> release -> join and randomized sleeps; the
+    observed orders (number of failed retries, release before/after commit()) are counted.  In "async_multi" cases 2..4
+    AsyncWriters queue behind one lock holder and race for the lock; whatever order they win in, the index must end up
+    holding exactly the model's documents (their transactions touch disjoint keys).
 """
 import datetime
 import os
@@ -40,8 +42,9 @@ RULE = ("case kinds: 'product' = one seeded history (1..4 transactions; deletes 
         "schema options vector/chars/sortable/boosts) run through the reference configuration and 5 (quick) / 8 (thorough) "
         "sampled configurations of storage x packing x non-multiprocess front-end; 'mp' = the same with 1-2 MpWriter "
         "configurations (procs 2..4 x batchsize 1/3/100 x multisegment) each in its own subprocess; 'bw' = a step-wise "
-        "BufferedWriter program against a dict model (sequential, threaded, timer variants); 'async' = AsyncWriter behind a "
-        "held lock with explicit sequencing. A product/mp case is non-trivial when the history has >= 2 documents and the "
+        "BufferedWriter program against a dict model (sequential, threaded, timer variants); 'async_multi' = 2..4 AsyncWriters "
+        "queued behind one lock holder (AsyncWriter behind a held lock with explicit sequencing is also one of the product "
+        "front-ends). A product/mp case is non-trivial when the history has >= 2 documents and the "
         "configuration differs from the reference; distinct = (front-end parameters, storage, packing, transaction-shape "
         "signature, deletions present, final segment count); bw/async cases: distinct = (variant, opcode sequence / observed "
         "timing order).")
@@ -70,16 +73,17 @@ ASSUMPTIONS = [
 ]
 SHARDS = {"quick": 4, "thorough": 16}
 BUDGET_S = {"quick": 75, "thorough": 720}
-FLOORS = {"c18.configs": 180, "c18.dump.compares": 250, "c18.fe.seg": 40, "c18.fe.serialmp": 20, "c18.fe.buffered": 40,
-          "c18.fe.async": 45, "c18.fe.mp": 18, "c18.mp.completed": 18, "c18.storage.file": 40, "c18.storage.nommap": 40,
-          "c18.storage.ram": 40, "c18.storage.toram": 40, "c18.packing.compound": 90, "c18.packing.loose": 90,
-          "c18.final.multisegment": 120, "c18.model.checks": 45, "c18.model.probe_checks": 350,
-          "c18.probe.compares": 2000, "c18.score.compares": 4000, "c18.stats.compares": 90, "c18.optimize.compares": 60,
-          "c18.async.blocked_txs": 60, "c18.async.order.blocked.retries0.release_before_commit": 15,
+FLOORS = {"c18.configs": 150, "c18.dump.compares": 200, "c18.fe.seg": 30, "c18.fe.serialmp": 16, "c18.fe.buffered": 35,
+          "c18.fe.async": 40, "c18.fe.mp": 18, "c18.mp.completed": 18, "c18.storage.file": 40, "c18.storage.nommap": 40,
+          "c18.storage.ram": 32, "c18.storage.toram": 32, "c18.packing.compound": 75, "c18.packing.loose": 75,
+          "c18.final.multisegment": 85, "c18.model.checks": 40, "c18.model.probe_checks": 320,
+          "c18.probe.compares": 1600, "c18.score.compares": 2700, "c18.stats.compares": 80, "c18.optimize.compares": 48,
+          "c18.async.blocked_txs": 50, "c18.async.order.blocked.retries0.release_before_commit": 15,
           "c18.async.order.blocked.retries3.release_after_commit": 15, "c18.async.order.free.retries0.release_-": 20,
           "c18.bw.view_checks": 190, "c18.bw.dump_checks": 45, "c18.bw.close_checks": 30, "c18.bw.ops_with_buffered_docs": 25,
           "c18.bw.thread_runs": 12, "c18.bw.commit_overlapped_add": 8, "c18.bw.thread_deletes_updates": 30,
-          "c18.bw.timer_flush_observed": 6}
+          "c18.bw.timer_flush_observed": 6, "c18.asyncmulti.runs": 6, "c18.asyncmulti.dump_checks": 6,
+          "c18.asyncmulti.distinct_lock_orders": 4, "c18.asyncmulti.lock_won_out_of_creation_order": 3}
 
 MP_TIMEOUT_S = 60
 
